@@ -127,3 +127,151 @@ def eff_exp(ent, k):
     if isinstance(p, bool):
         return e if p else 0
     return z3.If(p, zint(e), z3.IntVal(0))
+
+
+# ----------------------------------------------------------------------------- AST builders
+
+def variant(ex, enum, vname, fields=()):
+    return ex.make_variant(enum, vname, list(fields))
+
+
+def expr_unit(ex, name):
+    return variant(ex, 'Expr', 'Unit', [name])
+
+
+def expr_quote(ex, name):
+    return variant(ex, 'Expr', 'Quote', [name])
+
+
+def expr_const(ex, numeric):
+    return variant(ex, 'Expr', 'Const', [numeric])
+
+
+def expr_binop(ex, op, left, right):
+    b = Struct('BinOpExpr', [variant(ex, 'BinOpType', op), new_box(left), new_box(right)])
+    assert ex.prog.src.structs['BinOpExpr'] == ['op', 'left', 'right'], ex.prog.src.structs['BinOpExpr']
+    return variant(ex, 'Expr', 'BinOp', [b])
+
+
+def expr_unary(ex, op_value, inner):
+    assert ex.prog.src.structs['UnaryOpExpr'] == ['op', 'expr']
+    return variant(ex, 'Expr', 'UnaryOp', [Struct('UnaryOpExpr', [op_value, new_box(inner)])])
+
+
+def expr_mul(ex, items):
+    return variant(ex, 'Expr', 'Mul', [Arr(list(items))])
+
+
+def expr_call(ex, func, args):
+    return variant(ex, 'Expr', 'Call', [variant(ex, 'Function', func), Arr(list(args))])
+
+
+def value_number(ex, n):
+    return variant(ex, 'Value', 'Number', [n])
+
+
+# ----------------------------------------------------------------------------- stubs
+
+def stub_lookup(ex, nc, args):
+    """Context::lookup(&self, name) -> Option<Number>: the harness supplies the unit table in ex.env['units']"""
+    name = deref_all(args[1])
+    units = ex.env.get('units', {})
+    if name in units:
+        return some(ex, dup(units[name]))
+    return none(ex)
+
+
+def stub_show(ex, nc, args):
+    return Opaque('string', 'show')
+
+
+def stub_opaque_string(ex, nc, args):
+    return Opaque('string', nc)
+
+
+LOOKUP_STUB = (r'^Context::lookup$', stub_lookup, 'Context::lookup -> harness unit table (arbitrary Number per name)')
+SHOW_STUB = (r'^<.* as Show>::show$', stub_show, 'Show::show -> opaque string (only used in messages)')
+
+
+# ----------------------------------------------------------------------------- text lifting
+
+def frac_text(v):
+    v = Fraction(v)
+    if v.denominator == 1:
+        return '(%d)' % v.numerator if v.numerator < 0 else '%d' % v.numerator
+    return '(%d/%d)' % (v.numerator, v.denominator)
+
+
+def unit_text(exps):
+    """{name: exponent} -> rink text, or None when not expressible"""
+    parts = []
+    for k in sorted(exps):
+        e = exps[k]
+        if e == 0:
+            continue
+        if abs(e) >= 2 ** 31:
+            return None
+        parts.append('(%s^(%d))' % (k, e) if e != 1 else k)
+    return ' '.join(parts)
+
+
+def qty_text(v, exps):
+    u = unit_text(exps)
+    if u is None:
+        return None
+    return ('(%s %s)' % (frac_text(v), u)) if u else frac_text(v)
+
+
+def conc_dim(inputs, tag, universe):
+    """effective exponent dict of a sym_dim from concrete inputs"""
+    out = {}
+    for u in universe:
+        if inputs.get('%s_has_%s' % (tag, u)):
+            out[u] = int(inputs['%s_exp_%s' % (tag, u)])
+    return out
+
+
+def obs_number_json(o):
+    """observation of a query -> (Fraction value | 'float', {unit: exp}) or None"""
+    j = o.get('json')
+    if not isinstance(j, dict):
+        return None
+    raw = j.get('rawValue') or (j.get('value') or {}).get('rawValue')
+    if not raw:
+        return None
+    v = raw['value']
+    try:
+        val = Fraction(int(v['numer']), int(v['denom']))
+    except Exception:
+        return None
+    return val, {k: int(e) for k, e in raw['unit'].items()}
+
+
+def kernel_number(o):
+    """observation of number_op -> (Fraction|'float:..', dims) or None"""
+    n = o.get('number')
+    if not n:
+        return None
+    v = n['value']
+    if isinstance(v, str) and v.startswith('float'):
+        return v, {k: int(e) for k, e in n['unit'].items()}
+    return Fraction(v), {k: int(e) for k, e in n['unit'].items()}
+
+
+def number_json(v, exps):
+    v = Fraction(v)
+    return {'value': '%d/%d' % (v.numerator, v.denominator), 'unit': {k: int(e) for k, e in exps.items() if e != 0}}
+
+
+def model_number_obs(outcome_value):
+    """value-model Number (concrete) -> (Fraction|'float', dims)"""
+    val, d = number_parts(outcome_value)
+    kind, x = numeric_parts(val)
+    dims = {}
+    for k, (p, e) in d.items():
+        if p is True or (not isinstance(p, bool) and simp(p) is True):
+            dims[k] = int(simp(e)) if not isinstance(e, int) else e
+    if kind == 'float':
+        return 'float', dims
+    x = simp(x)
+    return Fraction(x), dims
